@@ -150,7 +150,7 @@ class Gen:
 
     def fresh(self, prefix):
         self.n += 1
-        return "%s%d" % (prefix, self.n)
+        return "%s%d%s" % (prefix, self.n, self.r.choice(["", "", "", "x", "_long_name", "Abc9_", "_"]))
 
     def feat(self, f):
         self.p.features.add(f)
@@ -258,7 +258,9 @@ class Gen:
         out = []
         vis = self.visible()
         for n, s in vis.items():
-            if s.ty[0] in ("class", "defrec") and self.fields_of(s.ty) and n not in self.hide:
+            if s.ty[0] in ("class", "defrec") and self.fields_of(s.ty) and n not in self.hide and s.exact:
+                # (a variable whose inferred record type may be narrower than its declared one is not used:
+                #  a `let` in the narrower record re-declares the field)
                 if s.ty[0] == "class" and not self.classes[s.ty[1]].complete:
                     continue
                 out.append((n, s))
@@ -464,7 +466,7 @@ class Gen:
         out = []
         for n, s in self.record_values():
             for fn, fs in self.fields_of(s.ty).items():
-                if self.compatible(fs.ty, t):
+                if self.compatible(fs.ty, t) and fn not in self.hide:
                     out.append((n, s, fn, fs))
         return out
 
@@ -484,7 +486,8 @@ class Gen:
     def list_source(self, depth):
         """emit a list-typed value, return its element type"""
         et = self.r.choice([INT, INT, STRING, BIT])
-        cands = [(n, s) for n, s in self.visible().items() if s.ty[0] == "list" and s.ty[1][0] in ("int", "string", "bit", "class")]
+        cands = [(n, s) for n, s in self.visible().items()
+                 if s.ty[0] == "list" and s.ty[1][0] in ("int", "string", "bit", "class") and n not in self.hide]
         if cands and self.r.random() < 0.5:
             n, s = self.r.choice(sorted(cands, key=lambda x: x[0]))
             self.use(n, s.key, site="ident")
@@ -557,7 +560,9 @@ class Gen:
             elif c == "substr":
                 call("!substr", [V(STRING), V(INT)] + ([V(INT)] if r.random() < 0.5 else []))
             elif c == "interleave":
-                call("!interleave", [V(LIST(r.choice([STRING, INT]))), V(STRING)])
+                # the element type must be inferable for the indexer (an !foreach with an untyped body is not)
+                it = r.choice([STRING, INT])
+                call("!interleave", [lambda: self.literal(LIST(it), 2), V(STRING)])
             elif c == "case":
                 call(r.choice(["!tolower", "!toupper"]), [V(STRING)])
             elif c == "cast":
@@ -662,7 +667,7 @@ class Gen:
 
     def pick_list_source(self):
         cands = [(n, s) for n, s in self.visible().items()
-                 if s.ty[0] == "list" and s.ty[1][0] in ("int", "string", "bit")]
+                 if s.ty[0] == "list" and s.ty[1][0] in ("int", "string", "bit") and n not in self.hide]
         if cands and self.r.random() < 0.5:
             n, s = self.r.choice(sorted(cands, key=lambda x: x[0]))
             return ("id", s.ty[1], n, s)
@@ -789,8 +794,82 @@ class Gen:
         self.record_fields = saved
         self.w("}")
 
+    def opvar_scope_items(self, rec):
+        """`list<int> fa = !filter(x, [..], !gt(x, 0)); int fb = x;`: the second x is the OUTER x (when there is
+        one) or out of scope (probe); same for !foreach and !foldl"""
+        r = self.r
+        outer = [(n, s) for n, s in self.visible().items()
+                 if s.kind in ("defvar", "foreach") and s.ty == INT and n not in self.record_fields
+                 and n not in self.frames[-1]]
+        if outer:
+            name, osym = r.choice(sorted(outer, key=lambda x: x[0]))
+        elif self.probe and not self.probed:
+            name, osym = self.fresh("ov"), None
+        else:
+            return False
+        op = r.choice(["!filter", "!foreach", "!foldl"])
+        fa = self.fresh("f")
+        self.w(("int " if op == "!foldl" else "list<int> "))
+        ka = self.decl(fa, "field")
+        self.w(" = " + op + "(")
+        if op == "!foldl":
+            self.w("0, [1, 2], ")
+            an = self.fresh("acc")
+            akey = self.decl(an, "opvar")
+            self.w(", ")
+            key = self.decl(name, "opvar")
+            self.w(", !add(")
+            self.use(an, akey)
+            self.w(", ")
+            self.use(name, key)
+            self.w("))")
+        else:
+            key = self.decl(name, "opvar")
+            self.w(", [1, 2, 3], ")
+            if op == "!foreach" and r.random() < 0.6:
+                # a body whose type the indexer cannot infer
+                self.w("!cond(1: !add(")
+                self.use(name, key)
+                self.w(", 1), true: 0))")
+                self.feat("!foreach-untyped-body")
+            else:
+                self.w("!gt(" if op == "!filter" else "!add(")
+                self.use(name, key)
+                self.w(", 1))")
+        self.w(";")
+        self.feat(op)
+        t = INT if op == "!foldl" else LIST(INT)
+        sym = Sym(ka, t, "field")
+        rec.own.add(fa)
+        rec.fields[fa] = sym
+        self.bind(fa, sym)
+        self.record_fields.add(fa)
+        self.nl()
+        self.w("  int ")
+        fb = self.fresh("f")
+        kb = self.decl(fb, "field")
+        self.w(" = ")
+        if osym is not None:
+            self.use(name, osym.key, site="ident")
+            self.feat("opvar-shadow-then-outer")
+        else:
+            lo = self.here()
+            self.w(name)
+            self.p.notfound.append((self.cur, lo, self.here()))
+            self.probed = True
+            self.feat("probe")
+        self.w(";")
+        symb = Sym(kb, INT, "field")
+        rec.own.add(fb)
+        rec.fields[fb] = symb
+        self.bind(fb, symb)
+        self.record_fields.add(fb)
+        return True
+
     def item(self, rec):
         r = self.r
+        if self.in_mc == 0 and r.random() < 0.2 and self.opvar_scope_items(rec):
+            return
         c = r.choice(["field", "field", "field", "let", "defvar", "assert"])
         if c == "let" and [f for f in rec.fields if f not in rec.own]:
             fn = r.choice(sorted(f for f in rec.fields if f not in rec.own))
@@ -1054,7 +1133,14 @@ class Gen:
         self.push()
         self.bind(name, Sym(key, et, "foreach"))
         self.loop_vars.append((name, et))
-        self.block(stmt)
+        first = []
+        if et in (INT, STRING) and self.in_mc == 0 and r.random() < 0.25:
+            # a defvar of the loop body that shadows the loop variable is the innermost declaration from there on
+            holder = {}
+            first.append(lambda: holder.setdefault("k", self.defvar_named(name, et)))
+            first.append(lambda: self.def_using(name, self.lookup(name)))
+            self.feat("foreach-var-shadowed-in-body")
+        self.block(stmt, first=first)
         self.loop_vars.pop()
         self.pop()
         self.feat("foreach")
@@ -1066,7 +1152,7 @@ class Gen:
         self.w(" then ")
         has_else = r.random() < 0.5
         then_first, else_first = [], []
-        if has_else and self.in_mc == 0 and r.random() < 0.5:
+        if has_else and self.in_mc == 0 and r.random() < 0.8:
             # a variable declared in the `then` branch must not be visible in the `else` branch:
             # either it shadows an outer variable of the same name (the else branch sees the outer one) ...
             outer = [(n, s) for n, s in self.visible().items()
